@@ -82,11 +82,16 @@ class Run:
         self.notes.append(text)
 
     # ------------------------------------------------------------------
-    def finish(self, prog=None):
+    def finish(self, prog=None, interrupted=None):
+        """interrupted: text of an analysis error met after some rules had completed.  Findings of completed
+        obligations stand (exit 1, with the note that the analysis is incomplete); without a finding the run is
+        an analysis error (exit 2) as before."""
         # instance-count floor: a rule that matches fewer sites than were
         # confirmed by hand would pass vacuously
         failed_rules = {f.rule for f in self.findings}
         for rid, r in self.rules.items():
+            if interrupted is not None:
+                break
             # a rule that already reports a finding may stop early; the floor guards
             # only against vacuous passes
             if r["instances"] < r["min"] and rid not in failed_rules:
@@ -129,6 +134,13 @@ class Run:
             if f.detail:
                 print("        detail: %s" % (json.dumps(f.detail)[:400]))
             print("VIOLATION property=%s replay=%s" % (f.prop, path))
+        if interrupted is not None:
+            if not violations:
+                print("ANALYSIS-ERROR property=%s %s" % (self.prop, interrupted))
+                return 2
+            print("ANALYSIS-INCOMPLETE property=%s the rules after the ones reported could not be completed: %s"
+                  % (self.prop, interrupted))
+            return 1
         if not noev:
             self.write_evidence(prog, violations, known_hits)
         return 1 if violations else 0
